@@ -53,6 +53,9 @@ def reachable (g : G) (src : Nat) : List Nat := (levels g (g.mods.length + 1) [s
 def induced (g : G) (keep : Nat → Bool) : G :=
   { mods := g.mods.filter keep, edges := g.edges.filter fun e => keep e.src && keep e.dst }
 
+/-- the same nodes with only the edges a predicate selects -/
+def filterEdges (g : G) (keep : Edge → Bool) : G := { g with edges := g.edges.filter keep }
+
 def bidirectional (g : G) : Bool := g.edges.all fun e => g.edges.any fun e' => e'.src == e.dst && e'.dst == e.src
 
 /-- every module reaches every module -/
